@@ -302,6 +302,21 @@ def diffLines (c : String) (curLen : Nat) : Nat â†’ List String â†’ List DRule â
   | i, _ :: ps, [] => RLine.delIdx c (curLen + 1) :: diffLines c curLen (i + 1) ps []
   | i, [], r :: rs => RLine.append c r.k :: diffLines c curLen (i + 1) [] rs
 
+/-- Delete-by-value lines for all our rules in a shared chain (`renderDeleteByValueLine` for every
+position with a non-empty hash); `none` = "rendering delete for nonexistent rule". -/
+def delLines (c : String) : List String â†’ List FR â†’ Option (List RLine)
+  | [], _ => some []
+  | h :: hs, frs =>
+    if h == "" then delLines c hs frs.tail
+    else
+      match frs with
+      | [] => none
+      | fr :: rest =>
+        (delLines c hs rest).map (fun ls =>
+          (match fr with
+           | .a _ r => RLine.delVal c r
+           | fr => RLine.bad fr.text) :: ls)
+
 /-- Lines and new cached state for one dirty insert/append chain. `none` = delete rendering error. -/
 def T.iaLines (t : T) (c : String) : Option (List RLine Ã— Option (List String Ã— List FR)) :=
   let prev := t.dpHashes.get c
@@ -309,31 +324,14 @@ def T.iaLines (t : T) (c : String) : Option (List RLine Ã— Option (List String Ã
   let newH := t.expectedIA c (numEmpty prevL)
   if prev == some newH then some ([], none)
   else
-    let full := (t.fullRules.get c)
-    -- deletes of all our rules, by value
-    let dels : Option (List RLine) := (List.range prevL.length).foldl (fun acc i =>
-      match acc with
-      | none => none
-      | some ls =>
-        if prevL.getD i "" != "" then
-          match full with
-          | none => none
-          | some frs =>
-            if i < frs.length then
-              match frs.getD i FR.dash with
-              | .a _ r => some (ls ++ [RLine.delVal c r])
-              | fr => some (ls ++ [RLine.bad fr.text])
-            else none
-        else some ls) (some [])
-    match dels with
+    let oldFull := (t.fullRules.get c).getD []
+    match delLines c prevL oldFull with
     | none => none
     | some dels =>
       let i := (t.ins.get c).getD []
       let a := (t.app.get c).getD []
-      let oldFull := (full.getD [])
-      let (insL, newFull) :=
-        if t.insertMode then (i.reverse.map (fun r => RLine.insert c r.k), i.map (fun r => FR.i c r.k) ++ oldFull)
-        else (i.map (fun r => RLine.append c r.k), oldFull ++ i.map (fun r => FR.a c r.k))
+      let insL := if t.insertMode then i.reverse.map (fun r => RLine.insert c r.k) else i.map (fun r => RLine.append c r.k)
+      let newFull := if t.insertMode then i.map (fun r => FR.i c r.k) ++ oldFull else oldFull ++ i.map (fun r => FR.a c r.k)
       let appL := a.map (fun r => RLine.append c r.k)
       some (dels ++ insL ++ appL, some (newH, newFull ++ a.map (fun r => FR.a c r.k)))
 
